@@ -207,6 +207,10 @@ func (c *Chain) Build(s TxSpec, env Env) *ctrlertypes.Trx {
 			gas = min + 1
 		case "big":
 			gas = min + 1000000
+		case "1R": // a fee of at least 10^18: with an amount close to 2^256 the sum fee+amount wraps around
+			if price.Sign() > 0 {
+				gas = new(big.Int).Div(Pow18, price).Uint64() + 1
+			}
 		}
 	}
 	fee := new(big.Int).Mul(price, new(big.Int).SetUint64(gas))
